@@ -231,3 +231,21 @@ class PlacementHandler(object):
         # not WebOb exceptions at this stage as the handlers are contained by
         # the wsgify decorator which will transform those exceptions to
         # responses itself.
+
+
+class RaisedErrorsAsResponses(object):
+    """Turn webob errors raised by the wrapped application into responses.
+
+    PlacementHandler raises its 400, 403 and 404 errors. The microversion
+    middleware adds the version header to an error raised through it but the
+    Vary header only to a response handed to it, so hand it responses.
+    """
+
+    def __init__(self, application):
+        self.application = application
+
+    def __call__(self, environ, start_response):
+        try:
+            return self.application(environ, start_response)
+        except webob.exc.HTTPError as exc:
+            return exc(environ, start_response)
